@@ -282,22 +282,42 @@ func (s getStatus) String() string {
 // refGet follows path inside v. Interfaces and pointers (any depth) are looked
 // through; the value found at the end is returned as it is stored there.
 func refGet(v any, path []string) (any, getStatus) {
+	x, st, _ := refGetX(v, path)
+	return x, st
+}
+
+// where describes the place at which a walk stopped: Step is the index of the path
+// element that could not be followed, Direct says that the container (or nil) met
+// there is the immediate dynamic value of an interface-typed position, Below that
+// an interface-typed position was passed earlier on the path.
+type where struct {
+	Step   int
+	Direct bool
+	Below  bool
+}
+
+func refGetX(v any, path []string) (any, getStatus, where) {
 	cur := reflect.ValueOf(v)
-	for _, el := range path {
+	below := false
+	for i, el := range path {
+		direct := false
+		w := func() where { return where{Step: i, Direct: direct, Below: below} }
 		for {
 			if !cur.IsValid() {
-				return nil, gNilIface
+				direct = true
+				return nil, gNilIface, w()
 			}
 			if cur.Kind() == reflect.Interface {
+				direct = true
 				if cur.IsNil() {
-					return nil, gNilIface
+					return nil, gNilIface, w()
 				}
 				cur = cur.Elem()
 				continue
 			}
 			if cur.Kind() == reflect.Ptr {
 				if cur.IsNil() {
-					return nil, gNilPtr
+					return nil, gNilPtr, w()
 				}
 				cur = cur.Elem()
 				continue
@@ -308,29 +328,32 @@ func refGet(v any, path []string) (any, getStatus) {
 		case reflect.Struct:
 			f := cur.FieldByName(el)
 			if !f.IsValid() {
-				return nil, gNoField
+				return nil, gNoField, w()
 			}
 			cur = f
 		case reflect.Map:
 			if cur.Type().Key().Kind() != reflect.String {
-				return nil, gBadKey
+				return nil, gBadKey, w()
 			}
 			e := cur.MapIndex(reflect.ValueOf(el).Convert(cur.Type().Key()))
 			if !e.IsValid() {
-				return nil, gAbsentKey
+				return nil, gAbsentKey, w()
 			}
 			cur = e
 		default:
-			return nil, gNotContainer
+			return nil, gNotContainer, w()
+		}
+		if direct {
+			below = true
 		}
 	}
 	if !cur.IsValid() {
-		return nil, gOK
+		return nil, gOK, where{Step: len(path), Below: below}
 	}
 	if cur.Kind() == reflect.Interface && cur.IsNil() {
-		return nil, gOK
+		return nil, gOK, where{Step: len(path), Below: below}
 	}
-	return cur.Interface(), gOK
+	return cur.Interface(), gOK, where{Step: len(path), Below: below}
 }
 
 // ---- target side: static leaf type and path set -----------------------------------
